@@ -497,6 +497,17 @@ func runC16(c *Ctx) {
 		if a := aliasBetween(env, res); a != "" {
 			c.R.Fail("alias:correct:"+pathClass(strings.SplitN(a, " ⇄ ", 2)[0]), fmt.Sprintf("%s (%s): the correction shares a mutable node with the source at %s", j.s.it.Rel, j.s.variant, a), wit())
 		}
+		// what the published tables require has to be refused by Correct itself, not
+		// only by a later validation of what it returned
+		if cd.reason && j.o.Reason == "" {
+			c.R.Fail("not-refused-by-correct:"+j.s.it.Regime+":reason", fmt.Sprintf("%s: the tables require a reason, none was given, and Correct returned a correction", j.s.it.Rel), wit())
+		}
+		if !typeAllowed {
+			c.R.Fail("not-refused-by-correct:"+j.s.it.Regime+":type", fmt.Sprintf("%s: correction type %q is not among %v and Correct returned a correction", j.s.it.Rel, j.o.Type, keysOf(cd.types)), wit())
+		}
+		if len(cd.stamps) > 0 && len(j.s.stamps) == 0 && len(j.o.Stamps) == 0 {
+			c.R.Fail("not-refused-by-correct:"+j.s.it.Regime+":stamps", fmt.Sprintf("%s: the source carries none of the required stamps %v and Correct returned a correction", j.s.it.Rel, cd.stamps), wit())
+		}
 		var verr error
 		Safely(func() { verr = res.Validate() })
 		rb, _ := json.Marshal(res)
